@@ -315,9 +315,121 @@ void trace_dim() {
   }
 }
 
+// ------------------------------------------------------------------------------------------------
+// helpers of T2toST2/t2tost2.ixx (Kirchhoff/Cauchy stress derivatives, push-forward derivative, rate of
+// deformation derivative) and st2tost2::stpd, with the functions they differentiate
+template <unsigned short N>
+void trace_dim2() {
+  constexpr int S = StensorDimeToSize<N>::value;
+  constexpr int T = TensorDimeToSize<N>::value;
+  const std::string d = "N" + std::to_string(N) + "_";
+  // ---------------------------------------------------------------- Kirchhoff <-> Cauchy stress derivatives
+  {
+    // Kirchhoff stress from the Cauchy stress: tau = det(F) * s
+    Unit u(d + "kirch");
+    stensor<N, Sym> s;
+    verif::fill_inputs(s, "s", S);
+    tensor<N, Sym> F;
+    verif::fill_inputs(F, "F", T);
+    const stensor<N, Sym> r = det(F) * s;
+    verif::outputs("r", r, S);
+  }
+  {
+    Unit u(d + "dkirch");
+    t2tost2<N, Sym> ds;
+    verif::fill_inputs2(ds, "ds", S, T);
+    stensor<N, Sym> s;
+    verif::fill_inputs(s, "s", S);
+    tensor<N, Sym> F;
+    verif::fill_inputs(F, "F", T);
+    const t2tost2<N, Sym> r = computeKirchhoffStressDerivativeFromCauchyStressDerivative(ds, s, F);
+    verif::outputs2("r", r, S, T);
+  }
+  {
+    // Cauchy stress from the Kirchhoff stress: s = tau / det(F)
+    Unit u(d + "cauchy");
+    stensor<N, Sym> t;
+    verif::fill_inputs(t, "t", S);
+    tensor<N, Sym> F;
+    verif::fill_inputs(F, "F", T);
+    const stensor<N, Sym> r = t / det(F);
+    verif::outputs("r", r, S);
+  }
+  {
+    Unit u(d + "dcauchy");
+    t2tost2<N, Sym> dt;
+    verif::fill_inputs2(dt, "dt", S, T);
+    stensor<N, Sym> s;
+    verif::fill_inputs(s, "s", S);
+    tensor<N, Sym> F;
+    verif::fill_inputs(F, "F", T);
+    const t2tost2<N, Sym> r = computeCauchyStressDerivativeFromKirchhoffStressDerivative(dt, s, F);
+    verif::outputs2("r", r, S, T);
+  }
+  // ---------------------------------------------------------------- push-forward F S F^T
+  {
+    Unit u(d + "pf");
+    stensor<N, Sym> s;
+    verif::fill_inputs(s, "S", S);
+    tensor<N, Sym> F;
+    verif::fill_inputs(F, "F", T);
+    const stensor<N, Sym> r = push_forward(s, F);
+    verif::outputs("r", r, S);
+  }
+  {
+    Unit u(d + "dpf");
+    t2tost2<N, Sym> K;
+    verif::fill_inputs2(K, "K", S, T);
+    stensor<N, Sym> s;
+    verif::fill_inputs(s, "S", S);
+    tensor<N, Sym> F;
+    verif::fill_inputs(F, "F", T);
+    const t2tost2<N, Sym> r = computePushForwardDerivative(K, s, F);
+    verif::outputs2("r", r, S, T);
+  }
+  // ---------------------------------------------------------------- rate of deformation D = sym(dF F^-1)
+  {
+    Unit u(d + "rod");
+    tensor<N, Sym> G;
+    verif::fill_inputs(G, "G", T);
+    tensor<N, Sym> F;
+    verif::fill_inputs(F, "F", T);
+    const tensor<N, Sym> iF = invert(F);
+    const tensor<N, Sym> L = G * iF;
+    const stensor<N, Sym> r = syme(L);
+    verif::outputs("r", r, S);
+  }
+  {
+    Unit u(d + "drod");
+    tensor<N, Sym> F;
+    verif::fill_inputs(F, "F", T);
+    const t2tost2<N, Sym> r = computeRateOfDeformationDerivative(F);
+    verif::outputs2("r", r, S, T);
+  }
+  // ---------------------------------------------------------------- symmetric product s1*s + s*s1
+  {
+    Unit u(d + "sp2");
+    stensor<N, Sym> a, s;
+    verif::fill_inputs(a, "a", S);
+    verif::fill_inputs(s, "s", S);
+    const stensor<N, Sym> r = 2 * symmetric_product(a, s);
+    verif::outputs("r", r, S);
+  }
+  {
+    Unit u(d + "stpd");
+    stensor<N, Sym> s;
+    verif::fill_inputs(s, "s", S);
+    const st2tost2<N, Sym> r = st2tost2<N, Sym>::stpd(s);
+    verif::outputs2("r", r, S, S);
+  }
+}
+
 int main() {
   trace_dim<1>();
   trace_dim<2>();
   trace_dim<3>();
+  trace_dim2<1>();
+  trace_dim2<2>();
+  trace_dim2<3>();
   return 0;
 }
